@@ -24,6 +24,20 @@ CLAIMED = {
              "Corner cells excluded (C12). Structural enumeration of link shapes is sampled in the quick tier.",
         technique="contract-based deductive verification: symbolic execution of the real function + z3 VCs, generic-iteration loop rule",
     ),
+    "C02": dict(
+        category="proof",
+        text=("Deductive proof of the contracts of the real Grid.__init__ (rule/fill resolution), "
+              "_map_kwargs_over_axes, _complete_user_kwargs_using_axis_defaults, Axis.__init__, padding.pad, _pad_basic "
+              "and _strip_all_coords: (A) for every enumerated spelling of periodic/boundary/fill_value on 1-3 axes the "
+              "per-axis rule and fill value equal rule_in_force/value_in_force written from the statement, and the caller's "
+              "mappings are unmodified; (B) symbolic execution of the real pad() with all sizes, widths >= 0, data and fill "
+              "values universally quantified: sizes, original values in place, new cells = wrapped/constant/nearest value of "
+              "the rule in force, identity return iff all widths are zero, coordinates stripped."),
+        design_ref="DESIGN.md 7/C02",
+        note=COMMON_NOTE + "Spellings of the arguments are enumerated (bool/list/total dict; None/scalar/total/partial "
+             "mapping); corner cells of multi-axis padding follow sequential extension in the order of boundary_width.",
+        technique="contract-based deductive verification: symbolic execution of the real functions + z3 VCs",
+    ),
 }
 
 NOT_YET = {}
